@@ -1145,7 +1145,7 @@ func c16Run(c *c16case) (impl c16evalRes, ref c16out, err error) {
 				}
 			}
 			if n > 1 {
-				ref.Err = "other"
+				ref.Err = "several" // rendered as [Some EFuel]: any error of G fits (Imports/Cases.v)
 			}
 			ref.Lines = nil
 		}
